@@ -58,6 +58,32 @@ func init() {
 	}
 }
 
+func init() {
+	specs["C13"] = &propSpec{
+		id:    "C13",
+		level: "exploration",
+		rule: "one evaluation = one simulated run: 2-4 tasks (real goroutines released one at a time by the seeded scheduler at instrumented statements, lock and unlock edges) print the same module/function/block (never-printed start) or any mix of receivers (already-printed start) of a parsed corpus module or a generated constructed module; " +
+			"oracle: no Go race-detector report between two tasks, every returned text equals the sequential text of the same call on an identically built twin, no panic, no deadlock, step cap not reached. " +
+			"distinct_nontrivial counts distinct (module, start state, hash of the sequence of (from task, to task, statement site) context switches) among runs with at least one context switch",
+		simulated:   []string{"goroutine scheduling of the caller tasks (statement granularity, seeded)", "Lock/Unlock of Module.mu and Func.mu (simulated blocking over the real TryLock/Unlock)", "sync.Pool.Put in race builds (always drops; removes unseeded randomness and masking happens-before edges)"},
+		assumptions: []string{"a context switch cannot split a single statement; the race detector compensates for data races (it needs both accesses to happen, not to collide), text comparison does not", "from a never-printed state all tasks print the same receiver, as the property promises; mixed receivers only from the already-printed state", "sampling: a clean batch is evidence, not proof"},
+		procs:       1,
+		race:        always,
+		plain:       never,
+		shrinkTime:  120 * time.Second,
+		search: func(s *propSpec, b *build, a *agg) {
+			runs := int64(600)
+			if tier == "thorough" {
+				runs = 40000
+			}
+			if *flagRuns > 0 {
+				runs = *flagRuns
+			}
+			fanOut(a, b.race, true, baseArgs(s, b), runs, numWorkers(), s.procs)
+		},
+	}
+}
+
 // selfTest: determinism of the simulator itself (see selftest.go for the
 // properties that have a scheduler); the default is a no-op success.
 func selfTest(spec *propSpec, b *build) int {
